@@ -57,10 +57,11 @@ ASSUMPTIONS = [
     'Monte-Carlo and panel specifications are not part of this workload (their parameters go through the same '
     'IdManager numbering; draws are covered by C10/C11)',
 ]
-MIN_DISTINCT = {'quick': 150, 'thorough': 3000}
-CASE_TIMEOUT = 180
+MIN_DISTINCT = {'quick': 150, 'thorough': 2500}
+CASE_TIMEOUT = 600  # generous: a case needs 1-3 s of CPU; the watchdog only guards against hangs on a loaded machine
+SHARD_TIMEOUT = {'quick': 1800, 'thorough': 14400}
 
-N_MODELS = {'quick': 360, 'thorough': 9000}
+N_MODELS = {'quick': 360, 'thorough': 6000}
 EST_EVERY = 3  # one case out of EST_EVERY estimates O, S and R
 
 DUP_KINDS = ['free-fixed', 'free-var', 'fixed-var', 'free-unusedcol', 'free-draws', 'fixed-draws', 'free-rv',
@@ -1223,6 +1224,11 @@ def _run_model(case):
     eff_tol = 0.0001220703125 if tol is None else tol
     share = r.random() < 0.5
     boot = 4 if (est and i % 4 == 0) else 0
+    if boot and sum(1 for v in model['betas'].values() if v[1] == 0) < 2:
+        # (with ONE free parameter estimate(run_bootstrap=True) raises IndexError in bioResults._calculate_stats:
+        #  np.cov of a (B, 1) array is 0-dimensional -- a statistics matter (C08), not a naming one; kept out)
+        boot = 0
+        rec.c('info_bootstrap_skipped_single_free_parameter')
     wo = Watch(rec, 'O', model, order_o, share, ident, case, viol)
     ws = Watch(rec, 'S', S, order_s, r.random() < 0.5, ident, case, viol)
     wr = Watch(rec, 'R', R, order_r, r.random() < 0.5, back_r, case, viol)
